@@ -57,9 +57,8 @@ def load_known():
     return json.load(open(KNOWN_FINDINGS))
 
 
-def run_property(pid, thunks, tier, meta):
-    """thunks: list of (name, callable() -> RuleResult | [RuleResult]). Returns exit code."""
-    t0 = time.time()
+def collect(pid, thunks):
+    """run the rules; anchors that are missing and checker errors fail closed as findings"""
     results = []
     for name, fn in thunks:
         try:
@@ -77,6 +76,14 @@ def run_property(pid, thunks, tier, meta):
             rr.findings.append(Finding(rr.rule, 'internal-error',
                                        'checker could not analyse this tree: %s: %s\n%s' % (type(e).__name__, e, traceback.format_exc()[-1500:])))
             results.append(rr)
+    return results
+
+
+def run_property(pid, thunks, tier, meta, post=None):
+    """thunks: list of (name, callable() -> RuleResult | [RuleResult]). Returns exit code.
+    post: optional callable run after the rules whose dict result is stored in the evidence under coverage.self_validation"""
+    t0 = time.time()
+    results = collect(pid, thunks)
 
     known = [k for k in load_known() if k.get('property') == pid and k.get('status') == 'known']
     known_keys = {k['key']: k for k in known}
@@ -113,6 +120,10 @@ def run_property(pid, thunks, tier, meta):
                 print('     %s' % line)
         print('VIOLATION property=%s replay=%s' % (pid, replay_path))
 
+    selfval = None
+    if post is not None:
+        selfval = post()
+
     # ---- evidence
     samples = []
     for r in results:
@@ -144,6 +155,7 @@ def run_property(pid, thunks, tier, meta):
             'trusted_base': meta.get('trusted_base', []),
             'exhaustive': True,
             'known_findings_matched': [f.key for f, _ in matched],
+            'self_validation': selfval,
         },
         'assumptions': meta.get('trusted_base', []),
         'wall_s': wall,
